@@ -860,6 +860,18 @@ func generateClauses(L *Loaded, root *packages.Package, cf *ContractFile, droppe
 				}
 				fmt.Fprintf(&g.b, "// clause %s %s %s (verif_contracts.go:%d): %s\n", fname, cl.Kind, cl.Label, cl.Line, cl.Src)
 				fmt.Fprintf(&g.b, "func %s(%s) bool {\n\treturn %s\n}\n\n", cl.GoName, c.LemmaParams, cl.Expr)
+				// `requires def.v: v == e` defines the integer parameter v: where the lemma is
+				// used, v is not quantified but replaced by e
+				if cl.Kind == "requires" && strings.HasPrefix(cl.Label, "def.") {
+					v := strings.TrimPrefix(cl.Label, "def.")
+					parts := strings.SplitN(cl.Expr, "==", 2)
+					if len(parts) != 2 || strings.TrimSpace(parts[0]) != v {
+						return "", fmt.Errorf("verif_contracts.go:%d: a defining clause has the form `requires def.%s: %s == <expr>`", cl.Line, v, v)
+					}
+					n++
+					cl.DefGoName = fmt.Sprintf("verif_cl_%d", n)
+					fmt.Fprintf(&g.b, "func %s(%s) int {\n\treturn %s\n}\n\n", cl.DefGoName, c.LemmaParams, strings.TrimSpace(parts[1]))
+				}
 			}
 			continue
 		}
